@@ -19,6 +19,7 @@ ASSUMPTIONS = ['reference model: Python list indexing / dict label lookup writte
                'row Series cells compared at value strength modulo NumPy numeric promotion (exactness is C07)']
 TIERS = {'quick': {'shards': 8, 'budget_s': 120, 'min_nontrivial': 5000},
          'thorough': {'shards': 16, 'budget_s': 1200, 'min_nontrivial': 50000}}
+HOOKS = ('index',)
 ANCHORS = {
     'static_frame.core.frame': ['Frame._extract', 'Frame._compound_loc_to_iloc', 'Frame._extract_bloc'],
     'static_frame.core.series': ['Series._extract_iloc', 'Series._extract_loc'],
@@ -115,6 +116,24 @@ def generate(ctx):
                 if ck[0] in ('boolseries', 'iloc'):
                     ck = ('null',)
             yield {'kind': 'frame', 'spec': spec, 'layout': lay, 'route': route, 'rowkey': rk, 'colkey': ck}
+        elif r < 0.96:
+            # a grow-only axis that has just grown (caches not yet refreshed), then one selection
+            ik = rng.choice(['IndexDate', 'IndexDate', 'IndexSecond', 'IndexYearMonth', 'str', 'int', 'auto'])
+            n = rng.randint(2, 8)
+            from sfmon.gen import labels as L_
+            labels = L_.flat_labels(ik, n, rng)
+            n0 = rng.randint(0, len(labels) - 1)
+            for _ in range(40):
+                key = _label_key(labels, ik, rng)
+                if key[0] in ('iloc', 'boolseries', 'serieskey', 'indexkey') or (key[0] == 'labelarray' and not key[1]):
+                    continue
+                if key[0] == 'lslice' and key[3] is not None and key[3] < 0:
+                    continue  # descending label slices: known finding, exercised on static containers
+                break
+            else:
+                key = ('null',)
+            yield {'kind': 'grown', 'index_kind': ik, 'labels': labels, 'n0': n0, 'key': key, 'container': rng.choice(['framego_columns', 'indexgo', 'series_from_go']),
+                   'materialise_before_growth': rng.random() < 0.6}
         else:
             spec = F.random_spec(rng, max_rows=4, max_cols=5, min_rows=1, min_cols=1, dtypes=_DTYPES,
                                  row_kinds=['auto', 'str', 'int'], col_kinds=['str', 'int'])
@@ -218,6 +237,8 @@ def check(case, ctx):
         return _check_series(case, ctx)
     if case['kind'] == 'frame':
         return _check_frame(case, ctx)
+    if case['kind'] == 'grown':
+        return _check_grown(case, ctx)
     return _check_bloc(case, ctx)
 
 
@@ -302,6 +323,8 @@ def _check_series(case, ctx):
     if not ok:
         ctx.violation('series_selection_mismatch', detail={'expected_labels': exp_labels, 'expected_values': exp_values,
                                                             'got': canon.brief(got, 900)}, klass=klass)
+        return
+    _followup_series(ctx, out, [spec.labels[p] for p in res.positions], [spec.values[p] for p in res.positions], klass)
 
 
 def _check_frame(case, ctx):
@@ -372,6 +395,118 @@ def _check_frame(case, ctx):
         ctx.violation('frame_selection_mismatch', detail={'expected_index': exp_index, 'expected_columns': exp_columns,
                                                           'expected_cols': exp_cols, 'expected_dtypes': exp_dtypes,
                                                           'got': canon.brief(got, 1200)}, klass=klass)
+        return
+    _followup_frame(ctx, out, [spec.rows[r] for r in R], [spec.cols[c] for c in C], [[spec.cells[r][c] for c in C] for r in R], klass)
+
+
+def _check_grown(case, ctx):
+    import static_frame as sf
+    from sfmon.gen import labels as L_
+    ik, labels, n0, desc = case['index_kind'], case['labels'], case['n0'], case['key']
+    n = len(labels)
+    ctx.tally('route', 'grown.' + case['container'])
+    ctx.tally('index_kind', 'grown:' + ik)
+    res = K.resolve_label(labels, desc)
+    ctx.evaluation(('grown', repr(case)), n >= 2)
+    klass = {'kind': 'grown', 'row_kind': ik, 'rowkey': desc[0], 'container': case['container'], 'row_error': res.error, 'col_error': None,
+             'row_step_negative': desc[0] == 'lslice' and desc[3] is not None and desc[3] < 0,
+             'row_negative_int_label': desc[0] in ('label', 'labels', 'lslice') and _has_negative_int(desc)}
+    if ik == 'auto':
+        go = sf.FrameGO(np.arange(n0).reshape(1, n0)).columns if n0 else sf.FrameGO(index=(0,)).columns
+    else:
+        go = L_.build_index(ik, labels[:n0], go=True)
+    if case['materialise_before_growth']:
+        go.values, len(go), go.positions
+    key = K.realize(desc)
+    if case['container'] == 'framego_columns':
+        f = sf.FrameGO(np.arange(n0).reshape(1, n0), columns=go) if n0 else sf.FrameGO(index=(0,), columns=go)
+        if case['materialise_before_growth']:
+            f.columns.values
+        for i in range(n0, n):
+            f[labels[i]] = np.array([i])
+        out, exc = _call(lambda: f[key])
+        read = (lambda o: [int(x) for x in (o.values.reshape(-1))]) if True else None
+    else:
+        for i in range(n0, n):
+            go.append(labels[i])
+        if case['container'] == 'indexgo':
+            out, exc = _call(lambda: go.loc_to_iloc(key))
+        else:
+            s = sf.Series(np.arange(n), index=go)
+            out, exc = _call(lambda: s.loc[key])
+    if res.error:
+        if exc is None and not (ik == 'auto'):
+            ctx.violation('absent_or_out_of_range_key_returned_data', detail={'errors': [res.error], 'got': canon.brief(out)}, klass=klass)
+        return
+    if not res.judged:
+        return
+    if exc is not None:
+        ctx.violation('valid_key_raised', detail={'exception': type(exc).__name__, 'message': str(exc)[:300]}, klass=dict(klass, exception=type(exc).__name__))
+        return
+    exp = list(res.positions)
+    if case['container'] == 'indexgo':
+        if isinstance(out, slice):
+            got = list(range(*out.indices(n)))
+        elif isinstance(out, (int, np.integer)):
+            got = [int(out)]
+        elif isinstance(out, np.ndarray) and out.dtype == bool:
+            got = [i for i, b in enumerate(out.tolist()) if b]
+        else:
+            got = [int(x) for x in out]
+    elif isinstance(out, (sf.Series, sf.Frame)):
+        got = [int(x) for x in np.asarray(out.values).reshape(-1)]
+    else:
+        got = [int(out)]
+    if got != exp:
+        ctx.violation('grown_axis_selection_mismatch', detail={'expected_positions': exp, 'got_positions': got, 'labels': repr(labels)[:400], 'key': repr(desc)},
+                      klass=klass)
+
+
+def _followup_series(ctx, out, labels, values, klass):
+    """a selection result is itself a container: label lookups on it must address its own labels (multi-step sequence)."""
+    if not labels or any(isinstance(l, tuple) for l in labels):
+        return
+    ctx.tally('followup', 'series')
+    for i in sorted({0, len(labels) // 2, len(labels) - 1}):
+        lab = labels[i]
+        try:
+            e = out.loc[lab]
+        except Exception as ex:
+            ctx.violation('followup_lookup_raised', detail={'label': repr(lab), 'exception': type(ex).__name__, 'labels': repr(labels)[:300]},
+                          klass=dict(klass, followup=True, exception=type(ex).__name__))
+            return
+        if cs(e) != cs(values[i]):
+            ctx.violation('followup_lookup_mismatch', detail={'label': repr(lab), 'expected': cs(values[i]), 'got': cs(e), 'labels': repr(labels)[:300]},
+                          klass=dict(klass, followup=True))
+            return
+    # an absent label must still be absent from the result
+    for absent in (987654, 'absent-label'):
+        if all(cs(absent) != cs(l) for l in labels):
+            try:
+                present = absent in out.index
+            except Exception:
+                present = False
+            if present:
+                ctx.violation('followup_absent_label_present', detail={'label': repr(absent)}, klass=dict(klass, followup=True))
+                return
+
+
+def _followup_frame(ctx, out, rows, cols, cells, klass):
+    if not rows or not cols or any(isinstance(l, tuple) for l in rows) or any(isinstance(l, tuple) for l in cols):
+        return
+    ctx.tally('followup', 'frame')
+    for i in sorted({0, len(rows) - 1}):
+        for j in sorted({0, len(cols) - 1}):
+            try:
+                e = out.loc[rows[i], cols[j]]
+            except Exception as ex:
+                ctx.violation('followup_lookup_raised', detail={'label': repr((rows[i], cols[j])), 'exception': type(ex).__name__},
+                              klass=dict(klass, followup=True, exception=type(ex).__name__))
+                return
+            if cs(e) != cs(cells[i][j]):
+                ctx.violation('followup_lookup_mismatch', detail={'label': repr((rows[i], cols[j])), 'expected': cs(cells[i][j]), 'got': cs(e)},
+                              klass=dict(klass, followup=True))
+                return
 
 
 def _check_bloc(case, ctx):
